@@ -74,6 +74,7 @@ from isla.three_valued_truth import ThreeValuedTruth
 from isla.trie import SubtreesTrie
 from isla.type_defs import Grammar, Path
 from isla.z3_helpers import (
+    z3_string_val,
     evaluate_z3_expression,
     DomainError,
     is_valid,
@@ -697,7 +698,7 @@ def evaluate_smt_formula(
         z3_subst(
             formula.formula,
             {
-                z3.String(var.name): z3.StringVal(str(tree))
+                z3.String(var.name): z3_string_val(str(tree))
                 for var, tree in formula.substitutions.items()
             },
         )
@@ -741,7 +742,7 @@ def evaluate_smt_formula(
                     formula.formula,
                     *tuple(
                         {
-                            z3.String(symbol.name): z3.StringVal(
+                            z3.String(symbol.name): z3_string_val(
                                 str(symbol_assignment[1])
                             )
                             for symbol, symbol_assignment in assignments.items()
